@@ -167,3 +167,30 @@ def _f09b(pid, cfg, tr, v):
     from props.c09 import PROP as _P
     fk = _P.frame_index(tr, v[1])
     return _f02b(pid, cfg, tr, ('R', fk, 0, [])) or _f02a(pid, cfg, tr, ('R', fk, 0, []))
+
+
+@trigger('F-11a')
+def _f11a(pid, cfg, tr, v):
+    """reroute pre-emption with the victim rerouted into the same node: the pre-emptor's service is started twice"""
+    if v[0] != 'R':
+        return False
+    if pid == 'C11':
+        if v[2] != 169:
+            return False
+        from props.c11 import PROP as _P
+    elif pid == 'C10':
+        if v[2] not in (108, 109):
+            return False
+        from props.c10 import PROP as _P
+    else:
+        return False
+    fk = _P.frame_index(tr, v[1]) if hasattr(_P, 'frame_index') else None
+    if fk is None or fk < 1 or fk > len(tr.frames):
+        return False
+    cev = tr.frames[fk - 1]['cev']
+    pre = cfg.get('preempt') or []
+    for e in cev:
+        if e[0] == 'Preempt' and e[1] - 1 < len(pre) and pre[e[1] - 1] == 'reroute':
+            if any(x[0] == 'Route' and x[8] == 1 and x[2] == e[2] and x[4] == e[1] for x in cev):
+                return True
+    return False
